@@ -365,188 +365,6 @@ func init() {
 	})
 
 	register(&Rule{
-		Name:  "OPT-canon",
-		Doc:   "in Canonicalize each post-processing step is the unconditional setter call with the constant \"\" under exactly its own flag (remove-port, remove-user-info, remove-fragment) or sort under exactly its sort-query value; every side-effecting call is control-dependent on a profile field whose zero value disables it",
-		Props: []string{"C16"},
-		Floor: 6,
-		Run: func(c *Ctx, s *core.Sink) {
-			f := c.P.Func("canonicalizer", "profile", "Canonicalize")
-			if f == nil {
-				s.Unknown("canon/anchor", "-", "(*profile).Canonicalize not found")
-				return
-			}
-			e := BuildEff(c)
-			ff := Facts(c, f)
-			// querySort constants
-			sortVal := map[string]string{}
-			for _, n := range []string{"NoSort", "SortKeys", "SortParameter"} {
-				if k, ok := c.P.ByName["canonicalizer"].Types.Scope().Lookup(n).(*types.Const); ok {
-					sortVal[n] = k.Val().ExactString()
-				}
-			}
-			expect := map[string][]string{
-				"SetPort":      {"profile.removePort"},
-				"SetUsername":  {"profile.removeUserInfo"},
-				"SetPassword":  {"profile.removeUserInfo"},
-				"Sort":         {"profile.sortQuery==" + sortVal["SortKeys"]},
-				"SortAbsolute": {"profile.sortQuery==" + sortVal["SortParameter"]},
-			}
-			seen := map[string]int{}
-			u := ssa.Value(f.Params[1])
-			for _, b := range f.Blocks {
-				if !ff.Reachable(b) {
-					continue
-				}
-				for _, ins := range b.Instrs {
-					call, ok := ins.(*ssa.Call)
-					if !ok {
-						continue
-					}
-					cl := call.Common().StaticCallee()
-					if cl == nil {
-						continue
-					}
-					sum := e.Sum(cl)
-					if sum == nil || len(sum.Mut) == 0 {
-						continue
-					}
-					name := cl.Name()
-					descs := factDescs(ff.At(b))
-					// drop negative sort conditions (a switch lowered to an if-chain)
-					var pos []string
-					for _, d := range descs {
-						if strings.HasPrefix(d, "profile.sortQuery!=") {
-							continue
-						}
-						pos = append(pos, d)
-					}
-					seen[name]++
-					key := fmt.Sprintf("canon/%s#%d", name, seen[name])
-					p := c.P.Pos(call.Pos())
-					isConstEmpty := func() bool {
-						if len(call.Common().Args) < 2 {
-							return true
-						}
-						v, ok := constString(call.Common().Args[1])
-						return ok && v == ""
-					}
-					if name == "SetHash" && isConstEmpty() {
-						expectOne(s, key, p, pos, []string{"profile.removeFragment"}, "SetHash(\"\")")
-						continue
-					}
-					if want, ok := expect[name]; ok {
-						if !isConstEmpty() {
-							s.Bad(key, p, name+" is not called with the constant \"\"")
-							continue
-						}
-						// the receiver is the URL being canonicalized (or its parameter list)
-						recv := call.Common().Args[0]
-						okRecv := recv == u
-						if rc, ok := recv.(*ssa.Call); ok && rc.Common().StaticCallee() != nil && rc.Common().StaticCallee().Name() == "SearchParams" && rc.Common().Args[0] == u {
-							okRecv = true
-						}
-						if !okRecv {
-							s.Bad(key, p, name+" is not applied to the URL being canonicalized")
-							continue
-						}
-						expectOne(s, key, p, pos, want, name)
-						continue
-					}
-					// every other side-effecting call: must be under some profile flag (FLOW-canon decides the details)
-					under := false
-					for _, d := range pos {
-						if !strings.HasPrefix(d, "profile.") {
-							continue
-						}
-						switch {
-						case strings.Contains(d, "=="):
-							k := d[strings.Index(d, "==")+2:]
-							if k != "0" && k != `""` && k != "false" && k != "nil" {
-								under = true // a non-zero value of the field is required
-							}
-						case strings.Contains(d, "!="):
-							k := d[strings.Index(d, "!=")+2:]
-							if k == "0" || k == `""` || k == "false" || k == "nil" {
-								under = true
-							}
-						default:
-							under = true // positive boolean flag
-						}
-					}
-					s.Check(under, key, p, "side effect only under "+strings.Join(pos, " ∧ "), "a profile built without options would still execute "+name+" (conditions: "+strings.Join(descs, " ∧ ")+")")
-				}
-			}
-			for name := range expect {
-				if seen[name] == 0 {
-					s.Bad("canon/"+name+"#1", c.P.Pos(f.Pos()), "Canonicalize never calls "+name+": the option that needs it has no effect")
-				}
-			}
-		},
-	})
-
-	register(&Rule{
-		Name:  "OPT-retry",
-		Doc:   "in profile.Parse and profile.ParseRef the default-scheme retry re-parses defaultScheme + \"://\" + input under exactly (err ≠ nil) ∧ (error type = missing scheme) ∧ (defaultScheme ≠ \"\"), and a remaining error is returned",
-		Props: []string{"C16"},
-		Floor: 2,
-		Run: func(c *Ctx, s *core.Sink) {
-			for _, n := range []string{"Parse", "ParseRef"} {
-				f := c.P.Func("canonicalizer", "profile", n)
-				key := "retry/(*profile)." + n
-				if f == nil {
-					s.Unknown(key, "-", "not found")
-					continue
-				}
-				ff := Facts(c, f)
-				input := ssa.Value(f.Params[1])
-				var retry *ssa.Call
-				for _, b := range f.Blocks {
-					for _, ins := range b.Instrs {
-						call, ok := ins.(*ssa.Call)
-						if !ok || !call.Common().IsInvoke() || call.Common().Method.Name() != "Parse" {
-							continue
-						}
-						// argument: (defaultScheme + "://") + input
-						if bo, ok := call.Common().Args[0].(*ssa.BinOp); ok && bo.Op == token.ADD {
-							retry = call
-						}
-					}
-				}
-				if retry == nil {
-					s.Bad(key, c.P.Pos(f.Pos()), "no retry with a default scheme found")
-					continue
-				}
-				var bad []string
-				outer, _ := retry.Common().Args[0].(*ssa.BinOp)
-				inner, ok := outer.X.(*ssa.BinOp)
-				if !ok || inner.Op != token.ADD || outer.Y != input {
-					bad = append(bad, "the retried text is not defaultScheme + \"://\" + input")
-				} else {
-					if sep, ok := constString(inner.Y); !ok || sep != "://" {
-						bad = append(bad, fmt.Sprintf("separator %v, want \"://\"", inner.Y))
-					}
-					if x, ok := loadOfField(inner.X, "profile:defaultScheme"); !ok || x != ssa.Value(f.Params[0]) {
-						bad = append(bad, "the prefix is not the profile's defaultScheme")
-					}
-				}
-				var descs []string
-				for _, d := range factDescs(ff.At(retry.Block())) {
-					if strings.HasPrefix(d, "param:") {
-						continue // the empty-base special case shared with the underlying parser (OPT-sibling)
-					}
-					descs = append(descs, d)
-				}
-				want := []string{"Type()==" + fmt.Sprintf("%q", missingSchemeValue(c)), "err!=nil", `profile.defaultScheme!=""`}
-				sort.Strings(want)
-				if strings.Join(descs, " ∧ ") != strings.Join(want, " ∧ ") {
-					bad = append(bad, fmt.Sprintf("guard is %v, want %v", descs, want))
-				}
-				s.Check(len(bad) == 0, key, c.P.Pos(retry.Pos()), "retry guarded by "+strings.Join(want, " ∧ "), strings.Join(bad, "; "))
-			}
-		},
-	})
-
-	register(&Rule{
 		Name:  "OPT-sibling",
 		Doc:   "the two implementations of each url.Parser entry point (*parser and *profile) agree on parameter special cases: the comparisons of a parameter with a constant that decide an early delegation",
 		Props: []string{"C16"},
@@ -737,252 +555,6 @@ func init() {
 					}
 				}
 				s.Check(bad == "", key+"/comparator", c.P.Pos(cmp.Pos()), strings.Join(t.fields, "+")+" of i < "+strings.Join(t.fields, "+")+" of j", bad)
-			}
-		},
-	})
-
-	register(&Rule{
-		Name:  "FLOW-canon",
-		Doc:   "with repeated percent-decoding on, hostname, pathname, every pair name, every pair value and the fragment are each replaced by decodeEncode(current value) under nothing but the option and 'component is non-empty'; decodeEncode is encode(decode-until-unchanged(s))",
-		Props: []string{"C18"},
-		Floor: 7,
-		Run: func(c *Ctx, s *core.Sink) {
-			f := c.P.Func("canonicalizer", "profile", "Canonicalize")
-			de := c.P.Func("canonicalizer", "", "decodeEncode")
-			if f == nil || de == nil {
-				s.Unknown("canon/anchor", "-", "Canonicalize / decodeEncode not found")
-				return
-			}
-			ff := Facts(c, f)
-			u := ssa.Value(f.Params[1])
-			isDE := func(v ssa.Value) (*ssa.Call, bool) {
-				call, ok := v.(*ssa.Call)
-				return call, ok && call.Common().StaticCallee() == de
-			}
-			getterOf := func(v ssa.Value) string {
-				// Getter(u) possibly wrapped in strings.TrimPrefix(·, "#")
-				if call, ok := v.(*ssa.Call); ok {
-					if cl := call.Common().StaticCallee(); cl != nil {
-						if cl.String() == "strings.TrimPrefix" {
-							if inner, ok := call.Common().Args[0].(*ssa.Call); ok {
-								if icl := inner.Common().StaticCallee(); icl != nil && namedOf(recvType(icl)) == "Url" && inner.Common().Args[0] == u {
-									return icl.Name()
-								}
-							}
-						}
-						if namedOf(recvType(cl)) == "Url" && call.Common().Args[0] == u {
-							return cl.Name()
-						}
-					}
-				}
-				return ""
-			}
-			type comp struct{ setter, getter string }
-			for _, cp := range []comp{{"SetHostname", "Hostname"}, {"SetPathname", "Pathname"}, {"SetHash", "Hash"}} {
-				key := "canon/" + cp.getter
-				var site *ssa.Call
-				for _, b := range f.Blocks {
-					for _, ins := range b.Instrs {
-						if call, ok := ins.(*ssa.Call); ok {
-							if cl := call.Common().StaticCallee(); cl != nil && cl.Name() == cp.setter && len(call.Common().Args) == 2 {
-								if _, ok := isDE(call.Common().Args[1]); ok {
-									site = call
-								}
-							}
-						}
-					}
-				}
-				if site == nil {
-					s.Bad(key, c.P.Pos(f.Pos()), "the "+strings.ToLower(cp.getter)+" is never replaced by its decoded-and-re-encoded form")
-					continue
-				}
-				dc, _ := isDE(site.Common().Args[1])
-				var bad []string
-				if site.Common().Args[0] != u {
-					bad = append(bad, "setter applied to another URL")
-				}
-				if g := getterOf(dc.Common().Args[0]); g != cp.getter {
-					bad = append(bad, fmt.Sprintf("decodes %s(), want %s()", g, cp.getter))
-				}
-				descs := factDescs(ff.At(site.Block()))
-				want := []string{cp.getter + `()!=""`, "profile.repeatedPercentDecoding"}
-				sort.Strings(want)
-				if strings.Join(descs, " ∧ ") != strings.Join(want, " ∧ ") {
-					bad = append(bad, fmt.Sprintf("guarded by %v, want exactly %v", descs, want))
-				}
-				s.Check(len(bad) == 0, key, c.P.Pos(site.Pos()), cp.setter+"(decodeEncode("+cp.getter+"())) under "+strings.Join(want, " ∧ "), strings.Join(bad, "; "))
-			}
-			// query pairs: Iterate(closure) with pair.Name/Value = decodeEncode(pair.Name/Value)
-			var it *ssa.Call
-			for _, b := range f.Blocks {
-				for _, ins := range b.Instrs {
-					if call, ok := ins.(*ssa.Call); ok {
-						if cl := call.Common().StaticCallee(); cl != nil && cl.Name() == "Iterate" && namedOf(recvType(cl)) == "SearchParams" {
-							it = call
-						}
-					}
-				}
-			}
-			if it == nil {
-				s.Bad("canon/pairs", c.P.Pos(f.Pos()), "query parameters are never decoded and re-encoded")
-			} else {
-				descs := factDescs(ff.At(it.Block()))
-				want := []string{`Search()!=""`, "profile.repeatedPercentDecoding"}
-				sort.Strings(want)
-				recvOK := false
-				if rc, ok := it.Common().Args[0].(*ssa.Call); ok && rc.Common().StaticCallee() != nil && rc.Common().StaticCallee().Name() == "SearchParams" && rc.Common().Args[0] == u {
-					recvOK = true
-				}
-				s.Check(recvOK && strings.Join(descs, " ∧ ") == strings.Join(want, " ∧ "), "canon/pairs/guard", c.P.Pos(it.Pos()), "u.SearchParams().Iterate under "+strings.Join(want, " ∧ "), fmt.Sprintf("iterates %v under %v, want u.SearchParams() under %v", it.Common().Args[0], descs, want))
-				var cl *ssa.Function
-				if mc, ok := it.Common().Args[1].(*ssa.MakeClosure); ok {
-					cl = mc.Fn.(*ssa.Function)
-				} else if fn, ok := it.Common().Args[1].(*ssa.Function); ok {
-					cl = fn
-				}
-				for _, fld := range []string{"Name", "Value"} {
-					key := "canon/pairs/" + fld
-					okF := false
-					if cl != nil && len(cl.Blocks) == 1 {
-						for _, ins := range cl.Blocks[0].Instrs {
-							st, ok := ins.(*ssa.Store)
-							if !ok {
-								continue
-							}
-							fa, ok := fieldAddrOf(st.Addr, "NameValuePair:"+fld)
-							if !ok || fa.X != ssa.Value(cl.Params[0]) {
-								continue
-							}
-							if dc, ok := isDE(st.Val); ok {
-								if x, ok := loadOfField(dc.Common().Args[0], "NameValuePair:"+fld); ok && x == ssa.Value(cl.Params[0]) {
-									okF = true
-								}
-							}
-						}
-					}
-					s.Check(okF, key, c.P.Pos(it.Pos()), "pair."+fld+" = decodeEncode(pair."+fld+")", "pair."+fld+" is not unconditionally replaced by decodeEncode(pair."+fld+")")
-				}
-			}
-			// order: decoding comes before sorting and before the remove-* steps (names and values must be in their final
-			// form when they are compared; a component removed later must not be re-created by decoding)
-			var decodeCalls, laterCalls []*ssa.Call
-			for _, b := range f.Blocks {
-				for _, ins := range b.Instrs {
-					call, ok := ins.(*ssa.Call)
-					if !ok {
-						continue
-					}
-					cl := call.Common().StaticCallee()
-					if cl == nil {
-						continue
-					}
-					switch cl.Name() {
-					case "Iterate":
-						decodeCalls = append(decodeCalls, call)
-					case "SetHostname", "SetPathname":
-						decodeCalls = append(decodeCalls, call)
-					case "SetHash":
-						if len(call.Common().Args) == 2 {
-							if _, ok := isDE(call.Common().Args[1]); ok {
-								decodeCalls = append(decodeCalls, call)
-							} else {
-								laterCalls = append(laterCalls, call)
-							}
-						}
-					case "Sort", "SortAbsolute", "SetPort", "SetUsername", "SetPassword":
-						laterCalls = append(laterCalls, call)
-					}
-				}
-			}
-			reach := func(from, to *ssa.BasicBlock) bool {
-				seen := map[*ssa.BasicBlock]bool{}
-				work := append([]*ssa.BasicBlock(nil), from.Succs...)
-				for len(work) > 0 {
-					b := work[len(work)-1]
-					work = work[:len(work)-1]
-					if b == to {
-						return true
-					}
-					if seen[b] {
-						continue
-					}
-					seen[b] = true
-					work = append(work, b.Succs...)
-				}
-				return false
-			}
-			orderBad := ""
-			for _, lc := range laterCalls {
-				for _, dc := range decodeCalls {
-					after := reach(lc.Block(), dc.Block())
-					if lc.Block() == dc.Block() {
-						for _, ins := range lc.Block().Instrs {
-							if ins == ssa.Instruction(dc) {
-								break
-							}
-							if ins == ssa.Instruction(lc) {
-								after = true
-							}
-						}
-					}
-					if after {
-						orderBad = fmt.Sprintf("%s (at %s) can run before the repeated decoding of a component (at %s): equivalent spellings are compared / removed before they are normalised", lc.Common().StaticCallee().Name(), c.P.Pos(lc.Pos()), c.P.Pos(dc.Pos()))
-					}
-				}
-			}
-			s.Check(orderBad == "", "canon/order", c.P.Pos(f.Pos()), "every sort / remove step comes after all repeated decoding", orderBad)
-			// decodeEncode = percentEncode(repeatedDecode(s), tr)
-			okDE := false
-			for _, b := range de.Blocks {
-				if r, ok := b.Instrs[len(b.Instrs)-1].(*ssa.Return); ok {
-					if enc, ok := r.Results[0].(*ssa.Call); ok && enc.Common().StaticCallee() != nil && enc.Common().StaticCallee().Name() == "percentEncode" {
-						if dec, ok := enc.Common().Args[0].(*ssa.Call); ok && dec.Common().StaticCallee() != nil && dec.Common().StaticCallee().Name() == "repeatedDecode" && dec.Common().Args[0] == ssa.Value(de.Params[0]) && enc.Common().Args[1] == ssa.Value(de.Params[1]) {
-							okDE = true
-						}
-					}
-				}
-			}
-			s.Check(okDE, "canon/decodeEncode", c.P.Pos(de.Pos()), "percentEncode(repeatedDecode(s), tr)", "decodeEncode is not percentEncode(repeatedDecode(s), tr)")
-			// repeatedDecode: the only loop exit is "a pass changed nothing"
-			rd := c.P.Func("canonicalizer", "", "repeatedDecode")
-			if rd == nil {
-				s.Unknown("canon/repeatedDecode", "-", "not found")
-			} else {
-				loops := loopsOf(rd)
-				okRD := false
-				why := "no decode-until-unchanged loop"
-				if len(loops) == 1 {
-					l := loops[0]
-					exits := 0
-					for b := range l.Blocks {
-						for si, succ := range b.Succs {
-							if l.Blocks[succ] {
-								continue
-							}
-							exits++
-							iff, ok := lastIf(b)
-							if !ok {
-								why = "loop exit is not a comparison"
-								continue
-							}
-							bo, ok := iff.Cond.(*ssa.BinOp)
-							if !ok || !(bo.Op == token.EQL && si == 0 || bo.Op == token.NEQ && si == 1) {
-								why = "loop does not exit on equality"
-								continue
-							}
-							// one side is the decode call, the other its argument
-							for _, pr := range [][2]ssa.Value{{bo.X, bo.Y}, {bo.Y, bo.X}} {
-								if dc, ok := pr[0].(*ssa.Call); ok && dc.Common().StaticCallee() != nil && dc.Common().StaticCallee().Name() == "decodePercentEncoded" && dc.Common().Args[0] == pr[1] {
-									okRD = true
-								}
-							}
-						}
-					}
-					if exits != 1 {
-						okRD, why = false, fmt.Sprintf("loop has %d exits", exits)
-					}
-				}
-				s.Check(okRD, "canon/repeatedDecode", c.P.Pos(rd.Pos()), "loops until decodePercentEncoded(s) == s", why)
 			}
 		},
 	})
@@ -1196,6 +768,9 @@ func init() {
 					if fa.Val != val {
 						return false
 					}
+					if val {
+						return truthImplies(fa.Cond, name, 0)
+					}
 					v := fa.Cond
 					if ex, ok := v.(*ssa.Extract); ok {
 						v = ex.Tuple
@@ -1224,7 +799,15 @@ func init() {
 								for _, ins := range gb.Instrs {
 									if call, isC := ins.(*ssa.Call); isC && call.Common().StaticCallee() == st.f {
 										sitesN++
-										if !hasFact(g, gb, callFact("remainingIsInvalidPercentEncoded", true)) {
+										pctHere := hasFact(g, gb, func(fa condFact) bool {
+											bo, ok := fa.Cond.(*ssa.BinOp)
+											if !ok || bo.Op != token.EQL || !fa.Val {
+												return false
+											}
+											k, ok := constInt(bo.Y)
+											return ok && k == '%'
+										})
+										if !hasFact(g, gb, callFact("remainingIsInvalidPercentEncoded", true)) && !pctHere {
 											ok = false
 										}
 									}
@@ -1308,22 +891,45 @@ func init() {
 					}
 					s.Check(okLax, key, pos, "consulted only where the strict parser fails", "the strict arm of a lax-host-parsing decision does not fail ("+why+"): the option changes hosts the default parser accepts")
 				case "skipEqualsForEmptySearchParamsValue":
-					okEq := false
+					// the blocks between the deciding branch and its immediate post-dominator write "=" and do nothing else
+					okEq, why := false, "the option does not feed a branch"
+					var iff *ssa.If
 					for _, r := range *st.ld.Referrers() {
-						if iff, isIf := r.(*ssa.If); isIf {
-							// some successor chain writes '=' and nothing else before rejoining
-							for _, succ := range iff.Block().Succs {
-								for _, ins := range succ.Instrs {
-									if call, isC := ins.(*ssa.Call); isC && call.Common().StaticCallee() != nil && call.Common().StaticCallee().Name() == "WriteRune" {
-										if k, ok := constInt(call.Common().Args[1]); ok && k == '=' {
-											okEq = true
-										}
-									}
+						if i2, isIf := r.(*ssa.If); isIf {
+							iff = i2
+						}
+						if u, isU := r.(*ssa.UnOp); isU && u.Op == token.NOT {
+							for _, r2 := range *u.Referrers() {
+								if i2, isIf := r2.(*ssa.If); isIf {
+									iff = i2
 								}
 							}
 						}
 					}
-					s.Check(okEq, key, pos, "decides only whether '=' is written", "the option decides something other than the '=' of an empty value")
+					if iff != nil {
+						region := branchRegion(st.f, iff.Block())
+						wrote := false
+						why = ""
+						for _, rb := range region {
+							for _, ins := range rb.Instrs {
+								switch x := ins.(type) {
+								case *ssa.Call:
+									if w, isW := builderWriteConst(x); isW && w == "=" {
+										wrote = true
+									} else {
+										why = "the branch also calls " + callName(x)
+									}
+								case *ssa.Store, *ssa.MapUpdate, *ssa.Send, *ssa.Go, *ssa.Defer, *ssa.Return, *ssa.Panic:
+									why = "the branch has another effect than writing '='"
+								}
+							}
+						}
+						if why == "" && !wrote {
+							why = "no '=' is written under the branch"
+						}
+						okEq = why == ""
+					}
+					s.Check(okEq, key, pos, "decides only whether '=' is written", "the option decides something other than the '=' of an empty value ("+why+")")
 				default:
 					// the remaining options (diagnostics, encode sets, callbacks, schemes, encoding override, trailing slash)
 					// are governed by ERR-ni, TAB-component, TAB-schemes; recorded for the inventory
@@ -1332,6 +938,166 @@ func init() {
 			}
 		},
 	})
+}
+
+// truthImplies: v being true implies that a call to the named predicate answered true — directly, or through a module
+// helper whose corresponding result is, on every return, that predicate's answer or the constant false.
+func truthImplies(v ssa.Value, name string, depth int) bool {
+	if depth > 3 {
+		return false
+	}
+	switch x := v.(type) {
+	case *ssa.Call:
+		cl := x.Common().StaticCallee()
+		if cl == nil {
+			return false
+		}
+		if cl.Name() == name {
+			return true
+		}
+		return resultImplies(cl, 0, name, depth)
+	case *ssa.Extract:
+		call, ok := x.Tuple.(*ssa.Call)
+		if !ok || call.Common().StaticCallee() == nil {
+			return false
+		}
+		cl := call.Common().StaticCallee()
+		if cl.Name() == name {
+			return true
+		}
+		return resultImplies(cl, x.Index, name, depth)
+	case *ssa.Phi:
+		for _, e := range x.Edges {
+			if b, ok := constBool(e); ok && !b {
+				continue
+			}
+			if e == ssa.Value(x) {
+				continue
+			}
+			if !truthImplies(e, name, depth+1) {
+				return false
+			}
+		}
+		return true
+	}
+	return false
+}
+
+func resultImplies(cl *ssa.Function, idx int, name string, depth int) bool {
+	if len(cl.Blocks) == 0 {
+		return false
+	}
+	n := 0
+	for _, b := range cl.Blocks {
+		for _, ins := range b.Instrs {
+			r, ok := ins.(*ssa.Return)
+			if !ok {
+				continue
+			}
+			if idx >= len(r.Results) {
+				return false
+			}
+			n++
+			if k, ok := constBool(r.Results[idx]); ok && !k {
+				continue
+			}
+			if !truthImplies(r.Results[idx], name, depth+1) {
+				return false
+			}
+		}
+	}
+	return n > 0
+}
+
+// builderWriteConst: a strings.Builder / bytes.Buffer write of a constant; returns the text written.
+func builderWriteConst(call *ssa.Call) (string, bool) {
+	cl := call.Common().StaticCallee()
+	if cl == nil || len(call.Common().Args) < 2 {
+		return "", false
+	}
+	switch cl.Name() {
+	case "WriteRune", "WriteByte":
+		if k, ok := constInt(call.Common().Args[1]); ok {
+			return string(rune(k)), true
+		}
+	case "WriteString":
+		if k, ok := constString(call.Common().Args[1]); ok {
+			return k, true
+		}
+	}
+	return "", false
+}
+
+func callName(call *ssa.Call) string {
+	if cl := call.Common().StaticCallee(); cl != nil {
+		return cl.Name()
+	}
+	return "a dynamic callee"
+}
+
+// branchRegion: the blocks on paths from the branch at `from` to its immediate post-dominator (both excluded).
+func branchRegion(f *ssa.Function, from *ssa.BasicBlock) []*ssa.BasicBlock {
+	// post-dominator sets over the reversed CFG with a virtual exit
+	pd := map[*ssa.BasicBlock]map[*ssa.BasicBlock]bool{}
+	all := map[*ssa.BasicBlock]bool{}
+	for _, b := range f.Blocks {
+		all[b] = true
+	}
+	for _, b := range f.Blocks {
+		if len(b.Succs) == 0 {
+			pd[b] = map[*ssa.BasicBlock]bool{b: true}
+		} else {
+			m := map[*ssa.BasicBlock]bool{}
+			for x := range all {
+				m[x] = true
+			}
+			pd[b] = m
+		}
+	}
+	for changed := true; changed; {
+		changed = false
+		for i := len(f.Blocks) - 1; i >= 0; i-- {
+			b := f.Blocks[i]
+			if len(b.Succs) == 0 {
+				continue
+			}
+			var nd map[*ssa.BasicBlock]bool
+			for _, sc := range b.Succs {
+				if nd == nil {
+					nd = map[*ssa.BasicBlock]bool{}
+					for x := range pd[sc] {
+						nd[x] = true
+					}
+				} else {
+					for x := range nd {
+						if !pd[sc][x] {
+							delete(nd, x)
+						}
+					}
+				}
+			}
+			nd[b] = true
+			if len(nd) != len(pd[b]) {
+				pd[b] = nd
+				changed = true
+			}
+		}
+	}
+	// blocks reachable from the successors that do not post-dominate `from`
+	var out []*ssa.BasicBlock
+	seen := map[*ssa.BasicBlock]bool{from: true}
+	work := append([]*ssa.BasicBlock(nil), from.Succs...)
+	for len(work) > 0 {
+		b := work[len(work)-1]
+		work = work[:len(work)-1]
+		if seen[b] || (pd[from][b] && b != from) {
+			continue
+		}
+		seen[b] = true
+		out = append(out, b)
+		work = append(work, b.Succs...)
+	}
+	return out
 }
 
 // armFails: the block (following jumps) calls a failure-flagged handler, or returns a non-nil error.
